@@ -96,9 +96,9 @@ CHECKS.update({
    text="TLC checks for every hash function (all collision patterns of 3 keys over 2 hash values and 2 shards) that reads return the map's value, a key lives only in its own shard and a load is never shared between different keys; "
         "the key-family driver builds equal keys along different code paths for ints of several widths, bool, string, pointer, array, struct, struct with StringKey, a non-injective StringKey and concurrent loading Gets of colliding keys, on go1.23.5 (raw-memory hasher) and go1.26.8 (maphash), and TLC validates every Get, Len and Range against the map per key value.",
    note="The type and value space is sampled; only the collision part is exhaustive (model level)."),
- "C19": dict(level="other", ref="4 C19",
+ "C19": dict(level="model_checking", ref="4 C19",
    technique="TLA+ spec RBMutex.tla (the shard lock at the grain of its atomic operations) model-checked by TLC (mutual exclusion, counter consistency, deadlock freedom; the three classic holes must violate) and bound by stepping the real RBMutex one hook at a time with every step compared by TLC (RBMutexTrace); TLA+ lock-domain table LockTable.tla; lock probes (TryLock / reader slots) recorded at every linearization hook of a running cache validated by TLC against the table; Go race detector over a mixed workload with hooks inert as supplementary oracle",
-   text="The lock domains (shard RW lock for key/value/cost/deadline and the map, policy mutex for links/flags/policy cost/wheel/sketch, both for removal of a map slot by eviction or expiry) are stated as a table in LockTable.tla; while clients, maintenance and ticker run, every hook point probes whether the lock the table requires is held and TLC validates all probes; "
+   text="The shard lock that the lock discipline rests on is specified at the grain of its atomic operations (RBMutex.tla): TLC checks mutual exclusion, counter consistency and deadlock freedom exhaustively for 2 readers, 1-2 writers and 2 slots, Apalache checks an inductive invariant implying mutual exclusion for 4 readers, 2 writers, 3 slots (6/3/4 thorough), and the real RBMutex is released one hook at a time with every step compared with the specification and the number of readers/writers inside checked on every line. The lock domains (shard RW lock for key/value/cost/deadline and the map, policy mutex for links/flags/policy cost/wheel/sketch, both for removal of a map slot by eviction or expiry) are stated as a table in LockTable.tla; while clients, maintenance and ticker run, every hook point probes whether the lock the table requires is held and TLC validates all probes; "
         "in addition the harness is built with -race and runs every API concurrently (SaveCache, Range, Close, loader, listener, hybrid store) with hooks inert, and any race report is a violation.",
    note="A specification observes actions, not memory accesses: the probes bind the locking discipline only at hook points; everything else rests on the race detector run, which is dynamic happens-before analysis and not a TLA+ result."),
  "C20": dict(level="model_checking", ref="4 C20", technique=STORE_T,
